@@ -49,7 +49,7 @@ int main() {
         } else if (op == "over" && w.size() == 3 && slot(w[1], i) && vh::to_u64(w[2], n)) {
             size_t ws = g[i]->writableSize();
             if (ws) memset(g[i]->writableBegin(), 0, ws);
-            g[i]->hasWritten(ws + n);
+            g[i]->hasWritten(n > ws ? n : ws);      // over-commit: at least the whole writable region, up to SIZE_MAX
             tag = "M ";
         } else if (op == "fetch" && w.size() == 3 && slot(w[1], i) && vh::to_u64(w[2], n)) {
             // destination of exactly the size we pass: an overrun is visible to ASan
